@@ -65,6 +65,7 @@ def h_cmd_run(fmt):
         sp.models['get_transforms'] = Func(lambda I_, a, k, n: Obj(TransformsOf(to_z3(a[0]), to_z3(k.get('match_mode', a[1] if len(a) > 1 else 'first_match'), StrS))))
         sp.models['_check_merchant_migration'] = Func(lambda I_, a, k, n: Obj(RulesOf(to_z3(a[0]), to_z3(a[1], StrS))))
         sp.models['load_supplemental_sources'] = Func(lambda I_, a, k, n: Obj(SuppOf(to_z3(a[0]), to_z3(a[1], StrS)), 'supp'))
+        sp.field_sorts[('contains', 'supp')] = lambda I_, c, item, node: I_.ctx.fresh('supplemental_source_loaded', z3.BoolSort())      # which supplemental sources were loaded: unknown
         sp.models['method:Obj:supp.keys'] = Func(lambda I_, a, k, n: Untracked())
         sp.field_sorts[('FormatSpecT', 'x')] = ObjS
 
@@ -101,7 +102,12 @@ def h_cmd_run(fmt):
 
         def inv(I_, env, k, it):
             return {'all_txns_is_concatenation_of_included_sources': seq_col(env['all_txns'], 0, ObjS) == Batches(it.cols[0], k)}
-        sp.loops[(RUN, fr.loop_ordinals[id(fors[0])])] = LoopSpec(inv, {'all_txns': lambda I_: SymSeq([I_.fresh('all_txns', SeqObj)], None, ['batch'])},
+        # the loop over the sources that collects their transactions (loops that only report - e.g. on supplemental sources that were not loaded - carry
+        # no state and get the engine's default contract)
+        collecting = [f for f in fors if any(isinstance(x, ast.Name) and x.id == 'all_txns' for x in ast.walk(f))]
+        if not collecting:
+            raise Unsupported('cmd_run: no loop collects all_txns')
+        sp.loops[(RUN, fr.loop_ordinals[id(collecting[0])])] = LoopSpec(inv, {'all_txns': lambda I_: SymSeq([I_.fresh('all_txns', SeqObj)], None, ['batch'])},
                                                                unfold=lambda I_, env, k, it: Batches.unfold(it.cols[0], k))
         for nd in ast.walk(fi.node):
             if isinstance(nd, (ast.DictComp, ast.SetComp, ast.ListComp, ast.GeneratorExp)):
